@@ -251,6 +251,14 @@ type exec struct {
 	closeSpawned atomic.Bool
 	closed       atomic.Bool // Close has returned
 
+	// dGate is held by the main goroutine while it performs the D actions (poller parked in the select).
+	// The first ResolveNow of them wakes the poller, which from then on runs concurrently: without the
+	// gate it could re-arm (newResolveNow) before the remaining D calls load the pointer, and those
+	// calls would land on the NEXT generation - a legitimate behaviour, but not the schedule the log
+	// claims (all D actions between K and W). The woken hook waits for the gate, so every D action
+	// returns before the poller re-arms and the log is a faithful linearisation.
+	dGate sync.Mutex
+
 	holdNext atomic.Bool     // the next arrival at resolver.resolveNow.loaded is to be held
 	loaded   chan struct{}   // the held call has loaded the pointer
 	release  []chan struct{} // one per held call
@@ -416,6 +424,8 @@ func (x *exec) hook(name string, args ...string) {
 		x.selectSeq.Add(1)
 		x.poke()
 	case "resolver.woken":
+		x.dGate.Lock() // wait until the D actions in progress (if any) have all returned
+		x.dGate.Unlock()
 		x.logf("W")
 		x.doActions('E')
 		x.wokenSeq.Add(1)
@@ -567,7 +577,9 @@ func (x *exec) drive() {
 		case isK:
 			handledPark = s2
 			lastProgress = time.Now()
+			x.dGate.Lock()
 			x.doActions('D')
+			x.dGate.Unlock()
 			nowakeAt = time.Time{}
 			// close() readies a parked receiver synchronously, so a poller that is still parked after
 			// the D actions (all of them have returned) will not be woken by them
@@ -812,7 +824,13 @@ func (s *fakeStream) Recv(ctx context.Context, m proto.Message) error {
 			return nil
 		}
 		done := s.sendClosed || s.closed
+		hung := s.att.mode == 'T' && !s.closed
 		s.mu.Unlock()
+		if done && hung {
+			// a target that stopped answering does not answer the graceful drain of client.close() either
+			<-ctx.Done()
+			return ctx.Err()
+		}
 		if done {
 			return io.EOF
 		}
@@ -862,7 +880,10 @@ func short(s string) string {
 
 func targetSig(t *bridgedesc.Target) string {
 	var sb strings.Builder
-	for _, svc := range t.Services {
+	// the order of Target.Services is not part of the property (routers index by name): canonicalise it
+	svcs := append([]bridgedesc.Service{}, t.Services...)
+	sort.SliceStable(svcs, func(i, j int) bool { return svcs[i].Name < svcs[j].Name })
+	for _, svc := range svcs {
 		sb.WriteString(string(svc.Name))
 		sb.WriteString("{")
 		for _, m := range svc.Methods {
